@@ -1613,6 +1613,9 @@ func (c21) Run(in string, scratch string) Result {
 	if strings.HasPrefix(in, "OWN ") {
 		return c21oRun(in, scratch)
 	}
+	if strings.HasPrefix(in, "ORD ") {
+		return c18OrdRun("storage", in, scratch)
+	}
 	f := strings.Fields(in)
 	ub, uk := untokList(f[0]), untokList(f[1])
 	ops := make([]c21Op, len(f)-2)
